@@ -348,7 +348,14 @@ func (ch c01) Run(c *core.Ctx) {
 					fc.Quiesce()
 				}
 				fc.CloseWrite()
-				fc.WaitClosed()
+				if !fc.WaitClosed() {
+					// (given up and not closed: the goroutine that served it is gone, or stuck)
+					hc := hs.NewClient(fc)
+					hc.Hung = true
+					if hangCheck(c, hc, map[string]any{"what": "a client that got S and failed the TLS handshake"}) {
+						return
+					}
+				}
 				c.Count("failed_tls_handshakes_before_an_authentication_group", 1)
 			}
 		}
